@@ -412,7 +412,7 @@ def main_check(pid, tier, seed, replay=None):
 
     def still_fails_check(c):
         rr = evaluate_cases(mod, [c], ctx)[0]
-        return bool(rr["check_fail"])
+        return bool(rr["check_fail"]) and not matches_known(pid, rr, known)
 
     def still_diff(c):
         rr = evaluate_cases(mod, [c], ctx)[0]
@@ -428,7 +428,7 @@ def main_check(pid, tier, seed, replay=None):
             break
         small = shrink_case(mod, r["case"], still_fails_check, ctx)
         rr = evaluate_cases(mod, [small], ctx)[0]
-        if not rr["check_fail"]:
+        if not rr["check_fail"] or matches_known(pid, rr, known):
             rr = r
         key = stable_key(rr["case"])
         if key in reported:
@@ -457,7 +457,7 @@ def main_check(pid, tier, seed, replay=None):
         if found:
             small = shrink_case(mod, found["case"], still_fails_check, ctx)
             rr = evaluate_cases(mod, [small], ctx)[0]
-            if not rr["check_fail"]:
+            if not rr["check_fail"] or matches_known(pid, rr, known):
                 rr = found
             violations.append((write_replay(pid, "violation", rr), ""))
         else:
